@@ -28,8 +28,12 @@ def _decode_all(payload):
 
     res = {}
     frame = pinned.frame(payload)
-    for lm in (0, 1, 2, True):
+    # the band option is decoded first (after whatever the previous case left behind), again after
+    # the RINEX options and once more at the end: all decodings under one option must agree
+    for lm in (2, 0, 1, 2, True, 2, 1):
         a = dict(R.public_attrs(RTCMMessage(payload=payload, labelmsm=lm)))
+        if repr(lm) in res and res[repr(lm)][0] != a:
+            res["repeat-differs"] = (repr(lm), a, res[repr(lm)][0])
         b = dict(R.public_attrs(RTCMReader.parse(frame, labelmsm=lm)))
         c = a
         for v in (1, 0):
@@ -57,6 +61,13 @@ def judge(case):
         else:
             out.nontrivial = False
         return out
+    if "repeat-differs" in res:
+        lm, now, before = res.pop("repeat-differs")
+        d = sorted(k for k in set(now) | set(before) if now.get(k) != before.get(k))
+        out.bad("label-depends-on-earlier-option",
+                f"{case['name']}: decoding the same payload twice under labelmsm={lm}, with decodings "
+                f"under other options in between, gives different {d[:4]}: {[now.get(k) for k in d[:3]]} "
+                f"vs {[before.get(k) for k in d[:3]]}")
     for lm, (a, b, c) in res.items():
         if a != b or a != c:
             out.bad("option-not-passed-through",
@@ -77,10 +88,22 @@ def judge(case):
         base = case["base"]
         ref = msmref.decode_masks(base, case["sat"], case["sig"], case["cell"])
         rel = set()
-        for k, (_prn, sid, _code) in enumerate(ref["cells"], 1):
+        for k, (_prn, sid, code) in enumerate(ref["cells"], 1):
             for lm, tag in (("1", 1), ("2", 2)):
                 lab = res[lm][0].get(f"CELLSIG_{k:02d}")
                 rel.add((base, tag, sid, lab))
+            for lm in ("0", "1", "True"):
+                lab = res[lm][0].get(f"CELLSIG_{k:02d}")
+                if lab != code:
+                    out.bad("rinex-option-gives-other-label",
+                            f"{case['name']}: labelmsm={lm}: CELLSIG_{k:02d}={lab!r} for signal ID {sid}, "
+                            f"RINEX code is {code!r}")
+                    break
+            lab2 = res["2"][0].get(f"CELLSIG_{k:02d}")
+            if code != pinned.NA and lab2 == code:
+                out.bad("band-option-gives-rinex-code",
+                        f"{case['name']}: labelmsm=2: CELLSIG_{k:02d}={lab2!r} is the RINEX code of "
+                        f"signal ID {sid}, not a frequency band")
         out.extra["labels"] = rel
         out.nontrivial = bool(ref["cells"])
         # within one message
